@@ -51,6 +51,8 @@ let handle kind c =
           diff (Printf.sprintf "step-%d-thread-%d-%s" i tid scen) ~model:(show5 mm) ~impl:(show5 (w, p, cu, pers, ncl))
         end
       end;
+      if not (Z.leb !last_p pers) then
+        prop "no-wrap" (Printf.sprintf "step %d: the persisted value went DOWN from %s to %s (values stick at 2^64-1, they never wrap)" i (tok_of_z !last_p) (tok_of_z pers));
       if not (instant_ok (z_of_int nth) !begun w pers) then
         prop "instant" (Printf.sprintf "step %d: word=%s persisted=%s begun=%s threads=%d" i (tok_of_z w) (tok_of_z pers) (tok_of_z !begun) nth);
       last_w := w; last_p := pers; last_cur := cu; last_ptr := p
